@@ -75,6 +75,12 @@ FileChecksum FileChecksum::getChecksumForPath(const std::string& path) {
     memset(result.bytes, 0, sizeof(result.bytes));
   } else if (fileInfo.isDirectory()) {
     result.bytes[0] = 1;
+  } else if ((fileInfo.mode & S_IFMT) != S_IFREG) {
+    // Only a regular file has contents to digest: opening a FIFO blocks until
+    // a writer appears and a device may never report the end of its data.
+    // Such an object is identified by its type.
+    result.bytes[0] = 2;
+    result.bytes[1] = uint8_t((fileInfo.mode & S_IFMT) >> 12);
   } else {
     PlatformSpecificHasher hasher(path);
     if (hasher.readAndDigest()) {
